@@ -383,28 +383,35 @@ static int run_case(const char *id, const char *src, long trunc, int nedits, cha
 	       cst.seekpast, cst.partial, cst.chunk);
 	fflush(stdout);
 
+	/* a fresh context per entry point: nothing (md5, tables) can be inherited from the previous load */
 	ctx = xmp_create_context();
-
 	LIB(rc = xmp_load_module(ctx, tmppath));
 	report_load("path", ctx, rc);
+	xmp_free_context(ctx);
 
+	ctx = xmp_create_context();
 	f = fopen(tmppath, "rb");
 	LIB(rc = xmp_load_module_from_file(ctx, f, size));
 	report_load("file", ctx, rc);
 	fclose(f);
+	xmp_free_context(ctx);
 
+	ctx = xmp_create_context();
 	LIB(rc = xmp_load_module_from_memory(ctx, buf, size));
 	report_load("mem", ctx, rc);
+	xmp_free_context(ctx);
 
+	ctx = xmp_create_context();
 	cst.pos = 0;
 	LIB(rc = xmp_load_module_from_callbacks(ctx, &cst, cbs));
 	report_load("cb", ctx, rc);
+	xmp_free_context(ctx);
 
+	ctx = xmp_create_context();
 	stack_pat = 0xEE;
 	LIB(rc = xmp_load_module_from_memory(ctx, buf, size));
 	report_load("mem2", ctx, rc);
 	stack_pat = 0x11;
-
 	xmp_free_context(ctx);
 
 	memset(&ti, 0, sizeof(ti));
